@@ -176,7 +176,7 @@ pub fn record_bytes_with_gt_idx(cs: &CallSet, r: &Record, gt_idx: i32) -> Vec<u8
     let mut shared = Vec::new();
     shared.extend((contig_idx(cs, r.contig) as i32).to_le_bytes());
     shared.extend(((r.pos - 1) as i32).to_le_bytes());
-    shared.extend(1i32.to_le_bytes()); // rlen
+    shared.extend((1 + r.ref_pad as i32).to_le_bytes()); // rlen
     match r.qual {
         Some(q) => shared.extend((q as f32).to_le_bytes()),
         None => shared.extend(0x7f80_0001u32.to_le_bytes()),
@@ -188,7 +188,7 @@ pub fn record_bytes_with_gt_idx(cs: &CallSet, r: &Record, gt_idx: i32) -> Vec<u8
     } else {
         shared.push(0x07);
     }
-    typed_string("A", &mut shared);
+    typed_string(&r.reference(), &mut shared);
     for a in &alts {
         typed_string(a, &mut shared);
     }
@@ -244,6 +244,7 @@ mod tests {
             info: (pos % 8) as u8,
             fmt_dp: pos % 2 == 1,
             fmt_gq: pos % 5 == 0,
+            ref_pad: 0,
             has_gt: pos != 7,
             force: 0,
             gts: g,
